@@ -83,6 +83,7 @@ func genC05(c *h.Ctx) {
 	genOps2(c)
 	genKnd(c)
 	genSk(c)
+	genUnres(c)
 	vs := c05Values(c.Rng)
 	bd := h.BoundaryDoubles()
 	for _, op := range c05Unary {
@@ -146,6 +147,8 @@ func implC05(line string) string {
 		return implKnd(f)
 	case "sk", "sku":
 		return implSk(f)
+	case "ur":
+		return implUr(f)
 	case "toInt32":
 		return fmt.Sprint(otto.VerifToInt32(h.ParseVal(f[1])))
 	case "toUint32":
